@@ -474,7 +474,10 @@ def run_real(case):
 # ------------------------------------------------------------------------------------------------------------------
 def _chunk(args):
     fn, items = args
-    return [fn(x) for x in items]
+    out = [fn(x) for x in items]
+    from harness import covprobe
+    covprobe.flush()
+    return out
 
 
 def pmap(fn, items, workers):
